@@ -9,7 +9,7 @@ func c10Specs() []*bfsSpec {
 	return []*bfsSpec{
 		{Name: "c10-consumers", Cfg: worldCfg{Geom: "gtail", Peers: peerAll, AutoDrain: true},
 			Setup:    []string{"haveall:0"},
-			Alphabet: []string{"creq:0:1:1", "creq:0:1:0", "creq:0:0:1", "creq:1:1:1", "creq:1:-1:0", "cdel:0:1", "cdel:0:0", "cdel:1:1", "cdel:1:-1", "complete:0", "complete:1", "fail:0", "evict", "tick", "setconf:0"},
+			Alphabet: []string{"creq:0:1:1", "creq:0:1:0", "creq:0:0:1", "creq:1:1:1", "creq:1:-1:0", "cdel:0:1", "cdel:0:0", "cdel:1:1", "cdel:1:-1", "complete:0", "complete:1", "fail:0", "dupcomplete:0", "dupfail:0", "evict", "tick", "setconf:0"},
 			Depth: 6, DepthT: 8},
 		{Name: "c10-idle", Cfg: worldCfg{Geom: "gtail", Peers: peerAll, AutoDrain: true, IdleRate: 65536},
 			Setup:    []string{"haveall:0", "unchoke:0"},
